@@ -84,6 +84,8 @@ type RunResult struct {
 	Violations []Violation
 	Reached    map[string]int
 	Asserts    map[string]int // label -> discharged count (unsat or trivially true)
+	BySolver   map[string]int // label -> of those, how many needed a solver verdict (unsat); the rest were reduced to true by term rewriting
+	SymInputs  int            // symbolic inputs created on this path
 	Unknown    map[string]int // label -> inconclusive count
 	Funcs      map[string]int // functions entered -> instr count
 	Steps      int
@@ -474,6 +476,7 @@ func (m *Machine) assert(label string, c T, pos string) {
 	case smt.Unsat:
 		if m.crossCheck(extra) {
 			m.Res.Asserts[label]++
+			m.Res.BySolver[label]++
 		} else {
 			m.Res.Unknown[label+" (z3 unsat, cvc5 sat: solver disagreement)"]++
 		}
